@@ -16,15 +16,15 @@ Vocabulary (all defined by scanning the history `h : List Op`, `Lemmas/LinkTrack
 data or listed in an ignore list), `metMissing r h`, `travCount r h`, `skipOf r h`.
 `run h` = final model state and outputs of the model on `h` from a fresh peer tracker.
 
-`WF h` ("well-formed"): every `dedup r k` in `h` is issued while `r` has no dedup key and no recorded
-traversal / ignored link since it began — i.e. the dedup key is the first thing set for a request,
-as `responsemanager.prepareQuery` does.
+A request belongs to one dedup scope at a time, `scopeOf r h`; assigning a key moves the request —
+with everything it recorded so far — into that scope (this is what `peerLinkTracker.DedupKey` does
+since /repo a69c5a5).
 
-**Finding.**  Without `WF` the property is false of the real code (known finding `dedup-switch`,
-`corpus/C19/dedup-switch.cases`): `peerLinkTracker.DedupKey` on a request that already recorded
-something moves the request to another tracker and leaves its old records behind.  Hence the
-peer-level theorems are `…_partial` (hypothesis `WF h`), each with a `…_counterexample` in the
-excluded region.  The theorems about the bare `linktracker.LinkTracker` hold for all histories.
+**History.**  Before that repair `DedupKey` on a request that had already recorded something switched
+the request to another tracker and left its old records behind, and the property was false of the
+real code (fixed finding, `corpus/C19/fixed.cases`).  The theorems below were then `…_partial` under a
+well-formedness hypothesis; they now hold for ALL histories.  Section C keeps the old behaviour as
+`…_counterexample`s about the locally defined old step `oldStep`.
 -/
 set_option linter.unusedSimpArgs false
 namespace GS.C19
@@ -67,30 +67,26 @@ example :
 
 /-! ## B. the per-peer tracker behind `ResponseAssembler` -/
 
-/-- **Refinement (well-formed histories).**  Every output of the model — each send decision with its
-block index, each completeness flag — equals the output of the naive set-based specification
-`Spec` (no reference counts, no per-scope trackers). -/
-theorem refines_partial (h : List Op) (hwf : WF h) : (run h).2 = (Spec.runFrom {} h).2 :=
-  (run_refines h hwf).2
+/-- **Refinement (every history).**  Every output of the model — each send decision with its block
+index, each completeness flag — equals the output of the naive set-based specification `Spec`
+(no reference counts, no per-scope trackers). -/
+theorem refines (h : List Op) : (run h).2 = (Spec.runFrom {} h).2 :=
+  (run_refines h).2
 
 /-- `getLinkTracker` never dereferences a missing alt tracker — **every history**, no hypothesis. -/
 theorem alt_present (h : List Op) (r : Req) (k : Key) (hk : aget (run h).1.dedupKeys r = some k) :
-    (aget (run h).1.alts k).isSome = true :=
-  altPresent_runFrom altPresent_init h r k hk
+    (aget (run h).1.alts k).isSome = true := by
+  have hR := (run_refines h).1
+  exact (hR.al k).2 ⟨r, by rw [← hR.dk r, hk]⟩
 
-/-
-Full statement of `refcount_inv` (false without `WF`, see `no_residue_counterexample`):
-  ∀ h s l, refcount of (scope s, link l) after h
-            = Σ over the requests r in progress with scope s of (occurrences of l in withBlock r h).
--/
-/-- **refcount_inv.**  After a well-formed history the reference count of link `l` in the tracker of
+/-- **refcount_inv.**  After any history the reference count of link `l` in the tracker of
 scope `s` equals the number of occurrences of `l` in the with-block traversal lists of the
 in-progress requests of that scope (`rs` is any duplicate-free list containing them). -/
-theorem refcount_inv_partial (h : List Op) (hwf : WF h) (s : Option Key) (l : Link)
+theorem refcount_inv (h : List Op) (s : Option Key) (l : Link)
     (rs : List Req) (hnd : rs.Nodup) (hcov : ∀ r, inProgress r h = true → r ∈ rs) :
     ((run h).1.scopeTracker s).blockRefCount l =
       (rs.map (fun r => if scopeOf r h = s then (withBlock r h).count l else 0)).sum := by
-  have hR := (run_refines h hwf).1
+  have hR := (run_refines h).1
   rw [(hR.tr s).blockRefCount l]
   have hc : ∀ e ∈ proj (specRun h).wb s, e.1 ∈ rs := by
     intro e he
@@ -110,21 +106,21 @@ theorem refcount_inv_partial (h : List Op) (hwf : WF h) (s : Option Key) (l : Li
   split <;> simp
 
 /-- the with-block traversal list the tracker of `r`'s scope stores for `r` is `withBlock r h`. -/
-theorem links_inv_partial (h : List Op) (hwf : WF h) (r : Req) :
+theorem links_inv (h : List Op) (r : Req) :
     (aget ((run h).1.scopeTracker (scopeOf r h)).linksByReq r).getD [] = withBlock r h := by
-  have hR := (run_refines h hwf).1
+  have hR := (run_refines h).1
   rw [(hR.tr _).links r, encL_getD, linksOf_proj (specRun h).wb (specRun h).scope hR.jw, reqLinks_specRun]
   simp [(char_specRun h r).scope, scopeOf]
 
-/-- **The send decision, exactly.**  After a well-formed history, reporting link `l` for request `r`
+/-- **The send decision, exactly.**  After any history, reporting link `l` for request `r`
 is answered with "send the block" iff the block is present, `r` is past its
 do-not-send-first-blocks window, and no in-progress request of `r`'s scope (including `r`) has
 traversed `l` with its block.  The block index is the number of links `r` reported so far. -/
-theorem send_iff_partial (h : List Op) (hwf : WF h) (r : Req) (l : Link) (b : Bool) :
+theorem send_iff (h : List Op) (r : Req) (l : Link) (b : Bool) :
     ∃ s, (step (run h).1 (.trav r l b)).2 = .sent s (travCount r h + 1) ∧
       (s = true ↔ (b = true ∧ skipOf r h < ((travCount r h + 1 : Nat) : Int) ∧
                    ∀ r', scopeOf r' h = scopeOf r h → l ∉ withBlock r' h)) := by
-  have hR := (run_refines h hwf).1
+  have hR := (run_refines h).1
   have hch := char_specRun h r
   have hcnt : ((specRun h).cnt r).getD 0 = travCount r h := hch.cnt
   have hskp : ((specRun h).skp r).getD 0 = skipOf r h := hch.skp
@@ -152,19 +148,14 @@ theorem send_iff_partial (h : List Op) (hwf : WF h) (r : Req) (l : Link) (b : Bo
     obtain ⟨a, b', c⟩ := e
     simp only at hl; subst hl; exact he
 
-/-
-Full statement of `at_most_once` (false without `WF`, see `at_most_once_counterexample`):
-  ∀ h r l b, traverse after h returns send = true for (scope of r, l) only if no in-progress request
-  has traversed l with a block while it was in that scope.
--/
-/-- **at_most_once.**  After a well-formed history `traverse` returns `send = true` for link `l` and
+/-- **at_most_once.**  After any history `traverse` returns `send = true` for link `l` and
 a request of scope `k` only if no in-progress request of scope `k` has traversed `l` with a block —
 whether that block was sent, suppressed, skipped (do-not-send-first-blocks) or listed in an ignore
 list. -/
-theorem at_most_once_partial (h : List Op) (hwf : WF h) (r : Req) (l : Link) (b : Bool) (i : Nat)
+theorem at_most_once (h : List Op) (r : Req) (l : Link) (b : Bool) (i : Nat)
     (hs : (step (run h).1 (.trav r l b)).2 = .sent true i) :
     b = true ∧ ∀ r', scopeOf r' h = scopeOf r h → l ∉ withBlock r' h := by
-  obtain ⟨s, h1, h2⟩ := send_iff_partial h hwf r l b
+  obtain ⟨s, h1, h2⟩ := send_iff h r l b
   rw [h1] at hs
   simp only [Out.sent.injEq] at hs
   have := h2.1 hs.1
@@ -172,29 +163,24 @@ theorem at_most_once_partial (h : List Op) (hwf : WF h) (r : Req) (l : Link) (b 
 
 /-- **…hence between two sends of `l` in one scope every request that traversed it has ended.**
 If after `g` request `r'` has traversed `l` with a block (for instance it was just sent `l`), and
-after the continuation `g'` the block `l` is sent to a request whose scope is `r'`'s scope, then
+after the continuation `g'` the block `l` is sent to a request of the scope `r'` is then in, then
 `g'` contains a finish / finish-with-error / clear of `r'`. -/
-theorem between_sends_partial (g g' : List Op) (r' r2 : Req) (l : Link) (b2 : Bool) (i2 : Nat)
-    (hwf : WF (g ++ g')) (htrav : l ∈ withBlock r' g)
+theorem between_sends (g g' : List Op) (r' r2 : Req) (l : Link) (b2 : Bool) (i2 : Nat)
+    (htrav : l ∈ withBlock r' g)
     (hs2 : (step (run (g ++ g')).1 (.trav r2 l b2)).2 = .sent true i2)
-    (hsc : scopeOf r2 (g ++ g') = scopeOf r' g) :
+    (hsc : scopeOf r' (g ++ g') = scopeOf r2 (g ++ g')) :
     ∃ o ∈ g', o.req = r' ∧ o.isEnd = true := by
   apply Classical.byContradiction
   intro hno
   have hne : ∀ o ∈ g', ¬ (o.req = r' ∧ o.isEnd = true) := fun o ho hc => hno ⟨o, ho, hc⟩
-  have hp := persist g g' r' l hwf htrav hne
-  have := (at_most_once_partial (g ++ g') hwf r2 l b2 i2 hs2).2 r' (by rw [hp.2, hsc])
-  exact this hp.1
+  have hp := persist g g' r' l htrav hne
+  exact (at_most_once (g ++ g') r2 l b2 i2 hs2).2 r' hsc hp
 
-/-
-Full statement of `no_residue` (false without `WF`, see `no_residue_counterexample`):
-  ∀ h, allFinished h → every map of the peer tracker and of its trackers is empty.
--/
 /-- **no_residue.**  When every request that was started has finished, failed or been cleared, the
 peer tracker is literally the fresh tracker: `dedupKeys`, `altTrackers`, `blockSentCount`,
 `skipFirstBlocks` are empty and the default tracker's three maps are empty. -/
-theorem no_residue_partial (h : List Op) (hwf : WF h) (hfin : allFinished h) : (run h).1 = init := by
-  have hR := (run_refines h hwf).1
+theorem no_residue (h : List Op) (hfin : allFinished h) : (run h).1 = init := by
+  have hR := (run_refines h).1
   have hnil : ∀ r, since r h = [] := by
     intro r
     have := hfin r
@@ -232,107 +218,136 @@ theorem no_residue_partial (h : List Op) (hwf : WF h) (hfin : allFinished h) : (
   cases p
   simp_all [init]
 
-/-
-Full statement of `resend` (false without `WF`, see `resend_counterexample`):
-  ∀ h, allFinished h → a new request traversing a present, unskipped, unignored link gets send = true.
--/
 /-- **resend.**  After that (every started request ended), a request — in the default scope or after
 choosing any dedup key — that reports a present link `l` not in its ignore list and outside its skip
 window is sent the block again.  (The general form, for states where other requests are still in
-progress, is the `←` direction of `send_iff_partial`.) -/
-theorem resend_partial (h : List Op) (hwf : WF h) (hfin : allFinished h) (r : Req) (l : Link) (k : Key) :
+progress, is the `←` direction of `send_iff`.) -/
+theorem resend (h : List Op) (hfin : allFinished h) (r : Req) (l : Link) (k : Key) :
     (step (run h).1 (.trav r l true)).2 = .sent true 1 ∧
     (runFrom (run h).1 [.dedup r k, .trav r l true]).2 = [.ok, .sent true 1] := by
-  rw [no_residue_partial h hwf hfin]
+  rw [no_residue h hfin]
   constructor
   · rfl
-  · simp [runFrom, step, init, PeerTracker.dedupKey, PeerTracker.traverse, PeerTracker.trackerOf,
+  · have hset : (init.setDedupKey r k) =
+        { main := {}, alts := [(k, {})], dedupKeys := [(r, k)], sentCount := [], skipFirst := [] } := by
+      simp [init, PeerTracker.setDedupKey, PeerTracker.dedupKey, LinkTracker.moveRequest,
+        LinkTracker.finishRequest, PeerTracker.scopeTracker, PeerTracker.setScopeTracker, aget, aset, aerase]
+    simp [runFrom, step, hset, PeerTracker.traverse, PeerTracker.trackerOf,
       PeerTracker.scopeTracker, PeerTracker.setTracker, PeerTracker.setScopeTracker, aget_aset, aget_cons,
       LinkTracker.blockRefCount]
 
-/-
-Full statement of `complete_iff` (false without `WF`, see `complete_iff_counterexample`):
-  ∀ h r, FinishTracking r after h returns true ↔ r recorded no traversal with a missing block since it began.
--/
-/-- **complete_iff.**  After a well-formed history `FinishTracking(r)` returns true — the response
+/-- **complete_iff.**  After any history `FinishTracking(r)` returns true — the response
 status is `RequestCompletedFull` rather than `RequestCompletedPartial` — exactly when `r` reported no
 link without data since it began. -/
-theorem complete_iff_partial (h : List Op) (hwf : WF h) (r : Req) :
+theorem complete_iff (h : List Op) (r : Req) :
     (step (run h).1 (.finish r)).2 = .done (!metMissing r h) := by
-  have hR := (run_refines h hwf).1
+  have hR := (run_refines h).1
   simp only [step]
   rw [(R_finish hR r).2, (char_specRun h r).miss]
   rfl
 
-/-! ## C. counterexamples outside `WF` (the known finding) -/
+/-! ## C. the behaviour before the repair (/repo a69c5a5), kept as counterexamples
 
-/-- Request 1 is sent block 0 in the default scope, is then given a dedup key, and finishes: every
-started request has finished, yet the default tracker still holds request 1's record (a reference
-count of 1 for block 0) … -/
+`oldStep` is the model of the code before the repair: `DedupKey` only assigned the key and created
+the bucket (`PeerTracker.dedupKey`); every other operation is unchanged. -/
+
+def oldStep (p : PeerTracker) : Op → PeerTracker × Out
+  | .dedup r k => (p.dedupKey r k, .ok)
+  | o => step p o
+
+def oldRunFrom (p : PeerTracker) : List Op → PeerTracker × List Out
+  | [] => (p, [])
+  | o :: os =>
+    let (p1, out) := oldStep p o
+    let (p2, outs) := oldRunFrom p1 os
+    (p2, out :: outs)
+
+def oldRun (h : List Op) : PeerTracker × List Out := oldRunFrom init h
+
+/-- OLD code: request 1 is sent block 0 in the default scope, is then given a dedup key, and
+finishes: every started request has finished, yet the default tracker still holds request 1's record
+(a reference count of 1 for block 0); the repaired model ends in the fresh state. -/
 theorem no_residue_counterexample :
     let h := [Op.trav 1 0 true, .dedup 1 7, .finish 1]
-    allFinished h ∧ (run h).1 ≠ init ∧ (run h).1.main.blockRefCount 0 = 1 := by
-  refine ⟨?_, by decide, by decide⟩
+    allFinished h ∧ (oldRun h).1 ≠ init ∧ (oldRun h).1.main.blockRefCount 0 = 1 ∧ (run h).1 = init := by
+  refine ⟨?_, by decide, by decide, by decide⟩
   intro r
   by_cases hr : r = 1
   · subst hr; decide
   · have : ¬ 1 = r := fun h2 => hr h2.symm
     simp [inProgress, since, sinceStep, Op.req, this]
 
-/-- … so a later request is never sent block 0 again. -/
+/-- OLD code: … so a later request was never sent block 0 again; now it is. -/
 theorem resend_counterexample :
-    (step (run [Op.trav 1 0 true, .dedup 1 7, .finish 1]).1 (.trav 2 0 true)).2 = .sent false 1 := by
+    let h := [Op.trav 1 0 true, .dedup 1 7, .finish 1]
+    (oldStep (oldRun h).1 (.trav 2 0 true)).2 = .sent false 1 ∧
+    (step (run h).1 (.trav 2 0 true)).2 = .sent true 1 := by
   decide
 
-/-- Request 1 meets a missing block, is then given a dedup key, and is reported complete-full. -/
+/-- OLD code: request 1 meets a missing block, is then given a dedup key, and was reported
+complete-full; now it is reported partial. -/
 theorem complete_iff_counterexample :
     let h := [Op.trav 1 0 false, .dedup 1 7]
-    (step (run h).1 (.finish 1)).2 = .done true ∧ metMissing 1 h = true := by decide
+    (oldStep (oldRun h).1 (.finish 1)).2 = .done true ∧ metMissing 1 h = true ∧
+    (step (run h).1 (.finish 1)).2 = .done false := by decide
 
-/-- Block 0 is sent twice in scope 7 — to request 1 and later to request 3 — although request 1,
-which traversed it in scope 7, is still in progress: request 1 moved to key 8, request 2 passed
-through scope 7 and its finish dropped the (non-empty) tracker of scope 7. -/
+/-- OLD code: request 1 is sent block 0 in the default scope and moves to scope 7 leaving its record
+behind; request 2 of scope 7 is then sent block 0 although request 1 — now of scope 7, in progress —
+has traversed it.  The repaired model suppresses that second transmission. -/
 theorem at_most_once_counterexample :
-    let h := [Op.dedup 1 7, .trav 1 0 true, .dedup 1 8, .dedup 2 7, .finish 2, .dedup 3 7, .trav 3 0 true]
-    (run h).2 = [.ok, .sent true 1, .ok, .ok, .done true, .ok, .sent true 1] ∧ inProgress 1 h = true := by
+    let h := [Op.trav 1 0 true, .dedup 1 7, .dedup 2 7]
+    (oldStep (oldRun h).1 (.trav 2 0 true)).2 = .sent true 1 ∧
+    scopeOf 1 h = scopeOf 2 h ∧ 0 ∈ withBlock 1 h ∧ inProgress 1 h = true ∧
+    (step (run h).1 (.trav 2 0 true)).2 = .sent false 1 := by
   decide
 
 /-! ## D. non-vacuity (tests by evaluation of concrete histories) -/
 
-/-- a well-formed history with three requests, two scopes, an ignore list, a skip window and a
-missing block. -/
+/-- a history with three requests, two scopes, an ignore list, a skip window, a missing block and a
+dedup key assigned in mid-request (request 3 joins scope 7 after it traversed blocks 0 and 1). -/
 def sample : List Op :=
   [.dedup 1 7, .dedup 2 7, .ignore 2 [4], .skip 3 1,
-   .trav 1 0 true, .trav 2 0 true, .trav 3 0 true, .trav 3 1 true, .trav 1 4 true, .trav 2 5 false]
+   .trav 1 0 true, .trav 2 0 true, .trav 3 0 true, .trav 3 1 true, .trav 1 4 true, .trav 2 5 false,
+   .dedup 3 7]
 
-example : WF sample := by decide
 /-- outputs: 1 gets block 0; 2 (same scope) does not; 3 (default scope) skips its first block, gets
 its second; block 4 is on 2's ignore list so 1 is not sent it. -/
 example : (run sample).2 =
-    [.ok, .ok, .ok, .ok, .sent true 1, .sent false 1, .sent false 1, .sent true 2, .sent false 2, .sent false 2] := by
+    [.ok, .ok, .ok, .ok, .sent true 1, .sent false 1, .sent false 1, .sent true 2, .sent false 2, .sent false 2,
+     .ok] := by
   decide
-/-- `refcount_inv_partial` is about non-trivial counts: block 0 has two holders in scope 7. -/
-example : ((run sample).1.scopeTracker (some 7)).blockRefCount 0 = 2 ∧
-    scopeOf 1 sample = some 7 ∧ scopeOf 2 sample = some 7 ∧ scopeOf 3 sample = none ∧
-    withBlock 2 sample = [4, 0] ∧ inProgress 3 sample = true := by decide
-/-- `at_most_once_partial` / `send_iff_partial`: the hypothesis "send = true" is met (request 3, new
-block 2) and so is "send = false because in use" (request 2, block 0 again). -/
+/-- `refcount_inv` is about non-trivial counts: block 0 has three holders in scope 7 once request 3
+has moved there, and the default tracker is empty again. -/
+example : ((run sample).1.scopeTracker (some 7)).blockRefCount 0 = 3 ∧
+    ((run sample).1.scopeTracker none).blockRefCount 0 = 0 ∧ (run sample).1.main = {} ∧
+    scopeOf 1 sample = some 7 ∧ scopeOf 2 sample = some 7 ∧ scopeOf 3 sample = some 7 ∧
+    withBlock 2 sample = [4, 0] ∧ withBlock 3 sample = [0, 1] ∧ inProgress 3 sample = true := by decide
+/-- `at_most_once` / `send_iff`: the hypothesis "send = true" is met (request 3, new block 2) and so is
+"send = false because in use" (request 2, block 1, which only request 3 brought into scope 7). -/
 example : (step (run sample).1 (.trav 3 2 true)).2 = .sent true 3 ∧
-    (step (run sample).1 (.trav 2 0 true)).2 = .sent false 3 := by decide
-/-- `complete_iff_partial`: both values occur. -/
+    (step (run sample).1 (.trav 2 1 true)).2 = .sent false 3 := by decide
+/-- `complete_iff`: both values occur. -/
 example : (step (run sample).1 (.finish 2)).2 = .done false ∧ (step (run sample).1 (.finish 1)).2 = .done true := by
   decide
-/-- `between_sends_partial`: block 0 is sent to 1, 1 and 2 (its holders in scope 7) finish, then it is
-sent to request 4 of scope 7. -/
+/-- `between_sends`: block 0 is sent to 1; 1, 2 and 3 (its holders in scope 7) end; then it is sent to
+request 4 of scope 7. -/
 example :
     let g := sample
-    let g' := [Op.finish 1, .clear 2, .dedup 4 7]
-    WF (g ++ g') ∧ 0 ∈ withBlock 1 g ∧ (step (run (g ++ g')).1 (.trav 4 0 true)).2 = .sent true 1 ∧
-      scopeOf 4 (g ++ g') = scopeOf 1 g := by decide
-/-- `no_residue_partial` / `resend_partial`: a non-trivial history after which everything has ended. -/
+    let g' := [Op.finish 1, .clear 2, .finishErr 3, .dedup 4 7]
+    0 ∈ withBlock 1 g ∧ (step (run (g ++ g')).1 (.trav 4 0 true)).2 = .sent true 1 := by decide
+/-- `no_residue` / `resend`: a non-trivial history after which everything has ended. -/
 example :
     let h := sample ++ [.finish 1, .clear 2, .finishErr 3]
-    WF h ∧ (run h).1 = init ∧ inProgress 1 h = false ∧ inProgress 2 h = false ∧ inProgress 3 h = false := by
+    (run h).1 = init ∧ inProgress 1 h = false ∧ inProgress 2 h = false ∧ inProgress 3 h = false := by
   decide
+
+/-! ## E. compatibility names for files written before the repair -/
+
+/-- `send_iff` under its former name and signature (`WF` is now the trivial predicate). -/
+theorem send_iff_partial (h : List Op) (_hwf : WF h) (r : Req) (l : Link) (b : Bool) :
+    ∃ s, (step (run h).1 (.trav r l b)).2 = .sent s (travCount r h + 1) ∧
+      (s = true ↔ (b = true ∧ skipOf r h < ((travCount r h + 1 : Nat) : Int) ∧
+                   ∀ r', scopeOf r' h = scopeOf r h → l ∉ withBlock r' h)) :=
+  send_iff h r l b
 
 end GS.C19
